@@ -86,6 +86,11 @@ func cmdRun(args []string) int {
 	}
 	res := NewResult(a.Prop, eng.Name)
 	t0 := time.Now()
+	if a.Budget > 0 {
+		// a single seed may not run much past the budget either: the enumerating
+		// engines stop taking further crash points / damages once this has passed
+		hardDeadline = t0.Add(time.Duration(a.Budget*1.6*float64(time.Second)) + 20*time.Second)
+	}
 	for i := 0; i < a.N; i++ {
 		if a.Budget > 0 && time.Since(t0).Seconds() > a.Budget {
 			break
@@ -117,6 +122,18 @@ func cmdRun(args []string) int {
 		return 2
 	}
 	return 0
+}
+
+// hardDeadline bounds a single seed (zero = none). It only ever truncates an
+// enumeration (counted as "enumeration-cut-by-budget"), never changes a verdict.
+var hardDeadline time.Time
+
+func pastDeadline(res *Result) bool {
+	if hardDeadline.IsZero() || time.Now().Before(hardDeadline) {
+		return false
+	}
+	res.Count("enumeration-cut-by-budget", 1)
+	return true
 }
 
 // Engine runs one seed of a property's check.
